@@ -281,6 +281,10 @@ class Impl:
             r = {"union": lambda: x | y, "inter": lambda: x & y, "diff": lambda: x - y,
                  "xor": lambda: x ^ y, "add": lambda: x + y}[op]()
             return self.put_dset(a[0], r)
+        if op == "dimadd":
+            return self.put_dset(a[0], dim(a[1]) + D(a[2]))
+        if op == "dimadd2":
+            return self.put_dset(a[0], dim(a[1]) + dim(a[2]))
         if op == "subset":
             return self.put_dset(a[0], D(a[1]).get_subset(tuple(a[2:])))
         if op == "subsetnone":
